@@ -41,9 +41,13 @@ func c19Write(entries []c19Entry) []byte {
 		if e.descriptor {
 			size = 0
 		}
-		out = c19le32(out, 0)    // crc32 (not read by the detector)
-		out = c19le32(out, size) // compressed size
-		out = c19le32(out, size) // uncompressed size
+		usize := size
+		if e.deflated && !e.descriptor {
+			usize = size*3 + 11 // deflated content: the uncompressed size differs from the stored size
+		}
+		out = c19le32(out, 0)     // crc32 (not read by the detector)
+		out = c19le32(out, size)  // compressed size
+		out = c19le32(out, usize) // uncompressed size
 		out = c19le16(out, len(e.name))
 		out = c19le16(out, 0) // extra length
 		out = append(out, e.name...)
@@ -105,6 +109,8 @@ func c19Filler(kind int) c19Entry {
 		return c19Entry{name: c19Sym("fname", 1), body: c19Sym("fbody", 2), descriptor: true, deflated: true}
 	case 2: // OOXML bookkeeping part
 		return c19Entry{name: []byte("docProps/core.xml"), body: c19Sym("fbody", 4), descriptor: true, deflated: true}
+	case 4: // long bookkeeping name, as office writers emit, deflated with its sizes in the header
+		return c19Entry{name: []byte("customXml/itemProps1.xml"), body: c19Sym("fbody", 3), deflated: true}
 	default: // near miss: the name is only "xl", the stored body starts with '/'
 		return c19Entry{name: []byte("xl"), body: append([]byte{'/'}, c19Sym("fbody", 3)...)}
 	}
@@ -148,11 +154,18 @@ func HC19() {
 		nFill = vChoice("fillers", 4)
 	}
 	uniform := vChoice("tier", 2) == 0
-	kind0 := vChoice("fillerKind", 4)
+	kind0 := vChoice("fillerKind", 5)
+	kindRest := kind0
+	if nFill > 1 {
+		kindRest = vChoice("fillerKindRest", 5)
+	}
 	for i := 0; i < nFill; i++ {
 		k := kind0
-		if !uniform && i > 0 {
-			k = vChoice("fillerKind", 4)
+		if i > 0 {
+			k = kindRest
+			if !uniform {
+				k = vChoice("fillerKind", 5)
+			}
 		}
 		entries = append(entries, c19Filler(k))
 	}
